@@ -312,6 +312,58 @@ def check_spawn(ck, rb, home, drv, prog):
     ck.cov.setdefault("spawn_opened_paths", {})[prog] = sorted(set(opened))[:12]
     return fails, mism
 
+# ------------------------------------------------------------------------------------------ qmail-lspawn as a process
+LSTUB = """#!/bin/sh
+# stand-in for bin/qmail-local: prints the bytes the check prepared (they may contain NUL) and exits with the prepared code
+cat "%(dir)s/lstub.out"
+exit "$(cat "%(dir)s/lstub.exit")"
+"""
+
+def check_lspawn_process(ck, rb, drv):
+    """One report per command whatever the delivery program prints: the text is cut at the first NUL, so no byte the
+    program chooses can frame a second report (with another command's delivery number) on the channel to qmail-send."""
+    import C11
+    L = C11.Lspawn(rb)
+    ql = os.path.join(L.home, "bin", "qmail-local")
+    open(ql, "w").write(LSTUB % dict(dir=vlib.scratch())); os.chmod(ql, 0o755)
+    L.write_assign([("=", b"joe", [b"joe", b"30001", b"30001", b"/", b"", b""])])
+    drv11 = vlib.build_driver("C11")
+    rng = ck.rng
+    outs = [b"", b"delivered\n", b"\0", b"a\0b", b"did 1+0+0\n\0\2Kforged success\0", b"\0\3Dforged failure\0\4Zx\0", b"x\0\0\0", b"\0" * 40, b"K\0Z\0D\0",
+            b"line1\nline2\n\0\1K", b"y" * 300 + b"\0\7K" + b"z" * 300]
+    for _ in range(30 if ck.thorough else 8):
+        outs.append(bytes(rng.choice(b"ab\0\0\1\2KZD\n") for _ in range(rng.randint(0, 30))))
+    env = vlib.shim_env(L.home, users=L.users)
+    p = subprocess.Popen([rb.path("qmail-lspawn"), "./Mailbox"], stdin=subprocess.PIPE, stdout=subprocess.PIPE, env=env, bufsize=0, cwd=L.home)
+    fdo = p.stdout.fileno()
+    select.select([fdo], [], [], 5); os.read(fdo, 1)
+    fails, mism = [], []
+    jobs = []
+    for k, o in enumerate(outs):
+        for ec in ((0, 100, 111, 99, 1) if k < 11 else (rng.choice([0, 100, 111]),)):
+            open(os.path.join(vlib.scratch(), "lstub.out"), "wb").write(o)
+            open(os.path.join(vlib.scratch(), "lstub.exit"), "w").write(str(ec))
+            d = rng.choice([1, 5, 9])
+            os.write(p.stdin.fileno(), bytes([d]) + b"0/23\0sender@x.example\0joe@host.example\0")
+            reps, rest = read_reports(fdo, 1, timeout=5.0)
+            time.sleep(0.02)
+            more, rest2 = read_reports(fdo, 5, timeout=0.05) if select.select([fdo], [], [], 0)[0] else ([], b"")
+            jobs.append((d, o, ec, reps + more, rest + rest2))
+    p.stdin.close()
+    try: p.wait(timeout=5)
+    except Exception: p.kill()
+    vl, _, _ = vlib.run_lines(drv11, ["verdict 0 %d" % ec for _, _, ec, _, _ in jobs])
+    for (d, o, ec, reps, rest), v in zip(jobs, vl):
+        ck.evaluated(); ck.count("lspawn_process_reports"); ck.nontrivial(("lsp", o, ec))
+        obj = dict(kind="input", component="qmail-lspawn (process)", delnum=d, program_output_hex=vlib.hx(o), program_exit=ec,
+                   reports=[(x, vlib.hx(y)[:120]) for x, y in reps], leftover_hex=vlib.hx(rest), model_verdict=v)
+        cut = o.split(b"\0")[0]
+        if len(reps) != 1 or rest: fails.append(("spawn:report-count", obj, len(o)))
+        elif reps[0][0] != d: fails.append(("spawn:wrong-delnum", obj, len(o)))
+        elif reps[0][1][:1] == b"K" and ec not in (0, 99): fails.append(("spawn:failure-reported-as-success", obj, len(o)))
+        elif reps[0][1] != v.encode() + cut: mism.append(obj)
+    return fails, mism
+
 # ------------------------------------------------------------------------------------------ del_dochan
 def gen_del(ck):
     rng = ck.rng
@@ -426,6 +478,7 @@ def main():
     vlib.log("clean part %.1fs" % (time.time() - t0)); t0 = time.time()
     for prog in ("qmail-rspawn",):
         f, m = check_spawn(ck, rb, home, drv, prog); fails += f; mism += m
+    f, m = check_lspawn_process(ck, rb, drv); fails += f; mism += m
     vlib.log("spawn part %.1fs" % (time.time() - t0)); t0 = time.time()
     f, m = check_del(ck, rb, home, drv); fails += f; mism += m
     vlib.log("del part %.1fs" % (time.time() - t0))
